@@ -575,6 +575,15 @@ func Build(c Case) (*Built, error) {
 			if cb, werr := w.ToCbor(); werr == nil {
 				if rd, rerr := container.FromCbor(cb); rerr == nil {
 					b.Loader = rd
+					// the delegations of this case are the ones the container hands out: decoded from their sealed
+					// form, with the time bounds the wire carries (whole seconds) - not the constructed objects
+					for i := range b.Dlgs {
+						if i < len(b.Cids) {
+							if d, gerr := rd.GetDelegation(b.Cids[i]); gerr == nil && d != nil {
+								b.Dlgs[i] = d
+							}
+						}
+					}
 				}
 			}
 		}
